@@ -328,6 +328,22 @@ def afterHistory (i0 : ι) (setters : List (ι → ι)) : ι := setters.foldl (f
 def reportAfter (report : ι → β) (i0 : ι) (setters : List (ι → ι)) : β :=
   report (afterHistory i0 setters)
 
+/-- a call on a long-lived object either is accepted (new inputs) or REFUSED (exception): a refused
+    call leaves the inputs where they were -/
+def stepOrKeep (i : ι) (call : ι → Except PyErr ι) : ι :=
+  match call i with
+  | .ok i' => i'
+  | .error _ => i
+
+/-- the inputs after a history of calls, some of which may be refused -/
+def afterCalls (i0 : ι) (calls : List (ι → Except PyErr ι)) : ι := calls.foldl stepOrKeep i0
+
+/-- everything the object reported along a history: one report before the first call and one after
+    every call.  Reports are VALUES: a later call cannot reach back into them. -/
+def reportsAlong (report : ι → β) : ι → List (ι → Except PyErr ι) → List β
+  | i, [] => [report i]
+  | i, call :: calls => report i :: reportsAlong report (stepOrKeep i call) calls
+
 end session
 
 end PyPhysim.Sinr
